@@ -5,5 +5,5 @@ cd "$(dirname "$0")"
 export CARGO_NET_OFFLINE=true
 rustc --version; cargo --version
 cargo build --offline -p vlab 2>&1 | tail -3
-if [ -d harness-tracing ]; then (cd harness-tracing && cargo build --offline 2>&1 | tail -3); fi
+cargo build --offline -p vtrace 2>&1 | tail -3
 echo "setup ok"
